@@ -32,15 +32,15 @@ def prototypes(rng, K, D, complex_, target=0.3):
 
 def class_labels(d, rng, K, D, extra_max=6):
     sizes = [D + 2 + d.int(0, extra_max) for _ in range(K)]
-    # "any class sizes >= D+2": in every second case some classes are several
+    # "any class sizes >= D+2": in two cases of three some classes are several
     # times larger than the others (auxiliary stream of the recorded seed, the
     # data generator itself is seeded after this call)
     aux = np.random.default_rng([int(np.sum(sizes)) + 1000 * K + 7 * D +
                                  len(d.choices), 31])
-    if aux.integers(0, 2):
+    if aux.integers(0, 3):
         for k in range(K):
             if aux.integers(0, 2):
-                sizes[k] = int(sizes[k] * aux.uniform(2, 5))
+                sizes[k] = int(sizes[k] * aux.uniform(2, 8))
     lab = np.concatenate([np.full(s, k) for k, s in enumerate(sizes)])
     return rng.permutation(lab)
 
